@@ -232,7 +232,7 @@ Fixpoint ear_loop (fuel : nat) (tl curr : nat) (s : ear) : option ear :=
                         Some (mkEar (r_heap s) (remove_id (cid cn) (r_index s))
                                     (r_prev s) (r_first s) (cn :: r_es s))
                     | None =>
-                        let first' := match r_first s with None => Some n | x => x end in
+                        let first' := match r_first s with Some f0 => Some f0 | None => Some n end in
                         match set_next (r_heap s) (r_prev s) (Some n) with   (* prev.next = curr *)
                         | None => None
                         | Some h' => Some (mkEar h' (r_index s) n first' (r_es s))  (* prev = curr *)
